@@ -50,13 +50,15 @@ class C10(Prop):
                   "(real threads, no scheduler) judged by the conservation identities.")
     level_note = ("SC interleaving (the code's Relaxed/Acquire/Release orderings are weaker). The registry (key -> cell map) is "
                   "not modelled: keys are independent cells. AtomicBucket/reservoir are a sequential bag (C05/C16 own their "
-                  "concurrency). NOT proved: (i) the composition forall c, spec_ok c (run_case c) = true - the per-key clauses, the "
-                  "timestamp clause and the framing/no-panic chain are proved separately, what is missing is the plumbing from the "
-                  "assembled message list back to the per-key outputs (filter over msgs_of/flush_calls), the one-line property of "
-                  "rendered bodies, and the scheduled-case clauses on the model (results vs ghost lists); (ii) absolute conservation "
-                  "for concurrent schedules outside the open class C10-rebase-straddle (only sequential: C10_absolute_conservation); "
-                  "(iii) idle-once suffix form is proved for a flusher that is between two counter flushes when the updates stop "
-                  "(C10_idle_once_suffix); a flush already in flight at that moment adds one more delta - argued, not proved. A first absolute racing a flush or another first absolute is the open finding C10-rebase-straddle. The forwarder loop (forwarder/sync.rs Forwarder::run, incl. the lifetime of FlushState and the UDP send) is not modelled; it is "
+                  "concurrency). NOT proved: (i) the single statement forall c, spec_ok c (run_case c) = true: for sequential cases the "
+                  "per-key conjunct is proved on the model's run (C10_spec_ok_on_model_keys) and the framing/no-panic chain "
+                  "(C10_wire_chain); missing are the flushes_ok conjunct (msgs_wf, ts_ok, one-line property of C09's rendered bodies) "
+                  "and the scheduled-case clauses (results vs ghost lists); (ii) concurrent absolutes: proved is 'no wrapped delta, "
+                  "last <= current outside the re-basing window' for increment-free programs with one flusher along hazard-free "
+                  "schedules (C10_absolute_no_wrap_hazard_free; hazard = the class pattern as a state predicate; the link to "
+                  "known_class = None is argued, not proved); the conservation identity is only sequential (with two updaters it is "
+                  "false even outside the class); (iii) idle-once suffix form: flusher between flushes (C10_idle_once_suffix) or one "
+                  "flush in flight (C10_idle_once_suffix_in_flight); other threads may only touch the gauge. A first absolute racing a flush or another first absolute is the open finding C10-rebase-straddle. The forwarder loop (forwarder/sync.rs Forwarder::run, incl. the lifetime of FlushState and the UDP send) is not modelled; it is "
                   "exercised end to end by a real exporter built with DogStatsDBuilder against a harness UDP socket in both tiers (judged per key: "
                   "sums, exactly one closing zero, gauge in every flush, histogram values once, timestamp iff Aggressive). "
                   "Histogram record racing a flush is only covered by the free-running stress (no value twice, none fabricated, "
